@@ -105,3 +105,15 @@ package scheduler
 //@ loop 2 invariant true
 //@ loop 3 invariant sl.Slot >= slot.Slot && sl.SlotsPerEpoch == slot.SlotsPerEpoch && sl.Slot == slot.Slot + ncalls(s.setDutyDefinition) - nBefore
 //@ after logResolvedDuties: true
+
+// resolveDuties: the three duty kinds are resolved for the slot and the validators just fetched, and the epoch is
+// marked resolved only after all three succeeded (or there is nothing to resolve).
+//@ func (s *Scheduler) resolveDuties
+//@ props C15
+//@ callreq resolveActiveValidators: a4 == slot.Epoch()
+//@ callreq s.resolveAttDuties: a2 == slot && a3 == vals
+//@ callreq s.resolveProDuties: a2 == slot && a3 == vals
+//@ callreq s.resolveSyncCommDuties: a2 == slot && a3 == vals
+//@ callreq s.setResolvedEpoch: a1 == slot.Epoch() && (len(vals) == 0 || (ncalls(s.resolveAttDuties) == 1 && ncalls(s.resolveProDuties) == 1 && ncalls(s.resolveSyncCommDuties) == 1))
+//@ ensures result == nil ==> ncalls(s.setResolvedEpoch) == 1
+//@ ensures result != nil ==> ncalls(s.setResolvedEpoch) == 0
